@@ -199,9 +199,18 @@ def removed_directory_and_dot():
                  c_restore([b"."]), c_status(), Edit("rmtree", b"d"), c_add([b"d/e"]), c_add([b"d", b"d/x"]), c_ls_files(False)]
 
 
+def status_after_shape_changes():
+    return ID + [W(b"src/a.txt", b"a"), W(b"src/b.txt", b"b"), W(b"gone.txt", b"g"), W(b"keep.txt", b"k"), W(b"f", b"file"),
+                 W(b"lib/x/y", b"deep"), c_add([b"."]), c_commit(b"c"), c_status(), Edit("delete", b"gone.txt"), Edit("rmtree", b"src"),
+                 W(b"src", b"now a file"), c_status(), Edit("delete", b"f"), W(b"f/inner", b"now a directory"), c_status(),
+                 Edit("rmtree", b"lib/x"), W(b"lib/x", b"file in place of a directory"), W(b"keep.txt", b"k"), c_status(),
+                 c_add([b"."]), c_status()]
+
+
 ORACLE_ONLY = {"newline-names"}
 
 DIRECTED = [
+    (("C13", "C18"), "status-after-shape-changes", status_after_shape_changes, "tracked files whose parent directory was replaced by a file (ENOTDIR), a tracked file replaced by a directory, an identical rewrite"),
     (("C04", "C06", "C09"), "removed-directory-and-dot", removed_directory_and_dot, "F47/F48: add of a tracked directory removed from disk; restore --staged . after entries of HEAD were unstaged"),
     (("C18", "C08", "C03", "C11"), "reset-after-rename", reset_after_rename, "every reflog position after branch --rename (which journals a record without a commit id), in every mode"),
     (("C14", "C10", "C03"), "colon-branches", colon_branches, "a branch whose name contains ': ' beside a branch named by the part before it"),
